@@ -809,6 +809,9 @@ impl<F: Read + Write + Seek> CompoundFile<F> {
 
     fn create_storage_with_path(&mut self, path: &Path) -> io::Result<()> {
         let mut names = internal::path::name_chain_from_path(path)?;
+        for name in names.iter() {
+            internal::path::validate_name(name)?;
+        }
         if let Some(stream_id) = self.stream_id_for_name_chain(&names) {
             let path = internal::path::path_from_name_chain(&names);
             if self.minialloc().dir_entry(stream_id).obj_type
@@ -857,6 +860,9 @@ impl<F: Read + Write + Seek> CompoundFile<F> {
 
     fn create_storage_all_with_path(&mut self, path: &Path) -> io::Result<()> {
         let names = internal::path::name_chain_from_path(path)?;
+        for name in names.iter() {
+            internal::path::validate_name(name)?;
+        }
         for length in 1..(names.len() + 1) {
             let prefix_path =
                 internal::path::path_from_name_chain(&names[..length]);
@@ -988,6 +994,9 @@ impl<F: Read + Write + Seek> CompoundFile<F> {
         overwrite: bool,
     ) -> io::Result<Stream<F>> {
         let mut names = internal::path::name_chain_from_path(path)?;
+        for name in names.iter() {
+            internal::path::validate_name(name)?;
+        }
         if let Some(stream_id) = self.stream_id_for_name_chain(&names) {
             if self.minialloc().dir_entry(stream_id).obj_type
                 != ObjType::Stream
